@@ -557,6 +557,48 @@ func guardsOf(b *ssa.BasicBlock) []Guard {
 		}
 		out = append(out, Guard{Cond: cond, Branch: br, If: iff})
 	}
+	// a short-circuit condition that go/ssa materialised as a boolean phi
+	// (`case a && b:`, `x := a || b; if x`): when the phi is known true and
+	// only one incoming edge can carry true, that edge was taken - its value
+	// is true and the guards of its source block hold (dually for false)
+	if guardDepth < 6 {
+		for _, g := range append([]Guard(nil), out...) {
+			phi, ok := g.Cond.(*ssa.Phi)
+			if !ok {
+				continue
+			}
+			if b, isB := phi.Type().Underlying().(*types.Basic); !isB || b.Kind() != types.Bool {
+				continue
+			}
+			cand := -1
+			n := 0
+			for i, e := range phi.Edges {
+				if k, isK := e.(*ssa.Const); isK && k.Value != nil && constant.BoolVal(k.Value) != g.Branch {
+					continue // this edge carries the opposite constant
+				}
+				cand = i
+				n++
+			}
+			if n != 1 {
+				continue
+			}
+			e := phi.Edges[cand]
+			if _, isK := e.(*ssa.Const); !isK {
+				cond, br := e, g.Branch
+				for {
+					if u, ok := cond.(*ssa.UnOp); ok && u.Op == token.NOT {
+						cond, br = u.X, !br
+						continue
+					}
+					break
+				}
+				out = append(out, Guard{Cond: cond, Branch: br, If: g.If})
+			}
+			guardDepth++
+			out = append(out, guardsOf(phi.Block().Preds[cand])...)
+			guardDepth--
+		}
+	}
 	// a block of a single-caller helper also stands under the guards of
 	// the helper's only call site (the helper is a piece of its caller)
 	if f := b.Parent(); f != nil {
